@@ -143,7 +143,7 @@ function doOp(p, c, surface){
   case "deleteProperty": if (surface) return strictBool(function(){ delete p[k]; }, c);
     return {b: Reflect.deleteProperty(p, k)};
   case "ownKeys": var ks = Reflect.ownKeys(p), out = []; for (var i = 0; i < ks.length; i++) out.push(keyCode(ks[i])); return {keys: out};
-  case "apply": return {v: valCode(surface ? p.call(undefined, 1) : p(1))};
+  case "apply": return {v: valCode(surface ? Reflect.apply(p, undefined, [1]) : p(1))};
   case "construct": return {obj: objCode(surface ? Reflect.construct(p, []) : new p())};
   }
   throw new Error("unknown trap " + c.trap); }
@@ -158,6 +158,7 @@ function runLat(caseJSON, goProxy){
   var res = trapResult(c), calls = 0, p;
   if (goProxy) p = goProxy(t, c.trap, res, function(){ calls++; });
   else { var h = {}; h[c.trap] = function(){ calls++; return res; }; p = new Proxy(t, h); }
+  dump(t); /* warm-up: goja materialises lazy function properties on first enumeration */
   var before = dump(t), out;
   try { out = doOp(p, c, cs.surface|0); } catch (e) { out = {err: errClass(e)}; }
   out.unchanged = dump(t) === before;
